@@ -22,6 +22,25 @@ pub struct Finding {
     pub detail: String,
 }
 
+/// Bundle extraction from the state a run returned. revm's bundle code is full of `unreachable!` arms for
+/// transition sequences a correct cache never produces; hitting one is a verdict about the state (C10: the
+/// transitions must equal those of revm's State, which extracts the same history without panicking in the
+/// reference run of the same case), not a harness crash.
+pub fn take_bundle_checked<DB: revm::DatabaseRef>(
+    state: &mut grevm::ParallelState<DB>,
+    retention: BundleRetention,
+    findings: &mut Vec<Finding>,
+) -> revm_database::BundleState {
+    match std::panic::catch_unwind(std::panic::AssertUnwindSafe(|| state.parallel_take_bundle(retention))) {
+        Ok(bundle) => bundle,
+        Err(payload) => {
+            let msg = payload.downcast_ref::<String>().cloned().or_else(|| payload.downcast_ref::<&str>().map(|m| m.to_string())).unwrap_or_else(|| "non-string panic payload".into());
+            findings.push(finding("C10", "bundle.extraction_panic", format!("parallel_take_bundle panicked: {}", msg.chars().take(240).collect::<String>())));
+            revm_database::BundleState::default()
+        }
+    }
+}
+
 fn finding(property: &'static str, class: &str, detail: String) -> Finding {
     Finding { property, class: class.to_string(), detail }
 }
@@ -428,7 +447,7 @@ pub fn run_pipeline_case(
                     }
                 }
             }
-            let bundle = out.first.state.parallel_take_bundle(want.retention());
+            let bundle = take_bundle_checked(&mut out.first.state, want.retention(), &mut findings);
             let actual_outcomes = &out.first.outcomes;
             summary = format!(
                 "calls={:?} outcomes={} reexec={} valconf={} fallback={:?}",
@@ -731,7 +750,7 @@ pub fn run_relation_case(scenario: &Arc<Scenario>, sched: &SchedSpec, replay: Op
                 stats.db_calls += out.db.stats.calls.load(std::sync::atomic::Ordering::Relaxed);
                 stats.db_latency_points += out.db.stats.latency_points.load(std::sync::atomic::Ordering::Relaxed);
                 stats.db_errors_persistent += out.db.stats.errors_persistent.load(std::sync::atomic::Ordering::Relaxed);
-                let bundle = out.first.state.parallel_take_bundle(want.retention());
+                let bundle = take_bundle_checked(&mut out.first.state, want.retention(), findings);
                 let call = out.first.calls.iter().find(|c| !matches!(&c.outcome, CallOutcome::Err { kind: ErrKind::OnlyOnce, .. }));
                 Some(RunSummary { name: name.to_string(), call: summarise_call(call), outcomes: out.first.outcomes, bundle })
             }
@@ -777,7 +796,7 @@ pub fn run_relation_case(scenario: &Arc<Scenario>, sched: &SchedSpec, replay: Op
         let (call, outcomes, mut state, db) = run::run_direct(s, fallback_entry);
         stats.db_calls += db.stats.calls.load(std::sync::atomic::Ordering::Relaxed);
         stats.db_errors_persistent += db.stats.errors_persistent.load(std::sync::atomic::Ordering::Relaxed);
-        let bundle = state.parallel_take_bundle(want.retention());
+        let bundle = take_bundle_checked(&mut state, want.retention(), &mut findings);
         summaries.push(RunSummary { name: name.to_string(), call: summarise_call(Some(&call)), outcomes, bundle });
     }
     stats.completed = summaries.len() == 5;
